@@ -155,7 +155,8 @@ pub mod parser {
     }
 
     pub fn new_line<'a>() -> Parser<'a, char, ()> {
-        one_of("\r\n").discard()
+        // a CRLF pair is one line ending
+        tag("\r\n").discard() | one_of("\r\n").discard()
     }
 
     /// any whitespace character
